@@ -33,8 +33,8 @@ ASSUMPTIONS = [
 
 def budget(tier):
     if tier == 'thorough':
-        return {'seeds': 60000, 'wall': 840, 'chunk': 100}
-    return {'seeds': 5000, 'wall': 150, 'chunk': 40}
+        return {'seeds': 400000, 'wall': 900, 'chunk': 100}
+    return {'seeds': 30000, 'wall': 200, 'chunk': 50}
 
 
 KINDS = ['fold_add', 'fold_max', 'fold_cat', 'fold_iadd_list', 'fold_probe_init', 'sum', 'sum_float',
